@@ -713,6 +713,22 @@ def numeric_event(ctx, events, kind, g, idx, variant=None):
         if not abs(float(fw.value) - float(lp.mp_fwhm(lpk, s))) <= 8 * EPS * float(fw.value):
             ok = False
         ev['flags'].append(['half_maximum_is_not_at_loc_plus_minus_reported_fwhm_half', bool(ok)])
+        # ---- the FWHM asked with the parameters of a whole fit (what fit_peaks does: peak.fwhm(popt)): the dict also
+        # holds a background and ANOTHER peak whose prefix has the same length; a refusal (KeyError / ValueError) is
+        # no verdict, an answer must be this model's own width
+        if prefix:
+            twin = prefix[:-1] + ('b' if prefix[-1] != 'b' else 'c')
+            other = {twin + 'amplitude': sc.scalar(2 * A, unit=sc.Unit(yu) * sc.Unit(xu)), twin + 'loc': sc.scalar(mu + 1, unit=xu),
+                     twin + 'scale': sc.scalar(7 * s, unit=xu), 'bkg_a0': sc.scalar(1.0, unit=yu)}
+            ok = True
+            for sup in ({**other, **params}, {**params, **other}):
+                try:
+                    fws = m.fwhm(sup)
+                except (KeyError, ValueError):
+                    continue
+                if not (fws.unit == fw.unit and float(fws.value) == float(fw.value)):
+                    ok = False
+            ev['flags'].append(['fwhm_from_the_parameters_of_a_whole_fit_is_not_the_models_own', bool(ok)])
         # ---- integral of the implementation's values + analytic Lorentzian tail
         vals = call(mu + s * _QU).values
         integral = float(np.sum(vals * _QW) * s)
